@@ -355,6 +355,11 @@ func verifRecover(w *verifWorldLog, initStore map[imap.InternalMessageID][]byte,
 				vsymAssert(bytes.HasSuffix(got, []byte(verifLit1)) || bytes.HasSuffix(got, []byte(verifLit2)), "the cached bytes of a listed message are a complete literal (not empty or truncated)")
 			}
 			vsymAssert(d.Msg(r.Msg) != nil, "after a crash every mailbox row refers to an existing message")
+			if _, had := initStore[r.Msg]; had {
+				// (reading of "state before or after the operation": the cache is the server's own copy of the
+				// bytes - an operation that failed or was interrupted must not have thrown it away)
+				vsymAssert(gerr == nil, "a listed message whose bytes were cached before the operation still has a cache file")
+			}
 		}
 	}
 	// left-overs are gone: no cache file without a message row, no message still marked deleted
@@ -388,7 +393,12 @@ func VerifC07Crash() {
 	var up imap.Update
 	switch vsymChoice("op", 4) {
 	case 0:
-		up = imap.NewMessagesCreated(false, verifMessageCreated("rm-2", verifLit2, "mb-A"), verifMessageCreated("rm-3", verifLit1, "mb-A", "mb-B"))
+		if vsymBool("batchMentionsKnown") {
+			// the batch restates a message the index already holds next to a new one
+			up = imap.NewMessagesCreated(false, verifMessageCreated("rm-1", verifLit1, "mb-A"), verifMessageCreated("rm-2", verifLit2, "mb-A", "mb-B"))
+		} else {
+			up = imap.NewMessagesCreated(false, verifMessageCreated("rm-2", verifLit2, "mb-A"), verifMessageCreated("rm-3", verifLit1, "mb-A", "mb-B"))
+		}
 	case 1:
 		pm, _ := imap.NewParsedMessage([]byte(verifLit2))
 		up = imap.NewMessageUpdated(imap.Message{ID: "rm-1", Flags: imap.NewFlagSet()}, []byte(verifLit2), []imap.MailboxID{"mb-A"}, pm, false)
